@@ -40,7 +40,8 @@ def required_cells(tier):
     return (['fail:' + k for k in FAIL_KINDS] + ['prefix:' + (p or 'none') for p in set(PREFIXES)] +
             ['style:google', 'style:freeform', 'open:same-line', 'open:own-line', 'where:func', 'where:method',
              'where:class', 'where:module', 'where:deco', 'start-line-checks', 'part-offset-checks',
-             'blank-lines-before-first-block', 'ignored-block-before-doctest'])
+             'blank-lines-before-first-block', 'ignored-block-before-doctest',
+             'opening-line-differs-from-evaluated-text'])
 
 
 def gen_doctest(rng, uid, fail_kind):
@@ -165,10 +166,19 @@ def gen_module(rng, seed):
         ind = ' ' * indent
         lines = []
         if open_same:
-            lines.append(ind + pref + q + body[0])
+            # the text on the opening line may be spelled differently from what it evaluates to (escape sequences in
+            # a non-raw docstring) and may end in blanks
+            summary = rng.choice([body[0], body[0], "Split *path* on '\\\\' separators.", 'Caf\\u00e9 summary.',
+                                  "It\\'s the summary.", body[0] + '   '])
+            if summary != body[0]:
+                feats.add('opening-line-differs-from-evaluated-text')
+            lines.append(ind + pref + q + summary)
             lines += [ind + ln if ln else ln for ln in body[1:]]
         else:
-            lines.append(ind + pref + q)
+            trail = '   ' if rng.random() < 0.15 else ''
+            if trail:
+                feats.add('opening-line-differs-from-evaluated-text')
+            lines.append(ind + pref + q + trail)
             lines += [ind + ln if ln else ln for ln in body]
         lines.append(ind + q + rng.choice(['', '', '  # trailing comment']))
         feats.add('prefix:' + (pref or 'none'))
